@@ -153,7 +153,7 @@ def make_case(rng, cid, scheme, tier, opts=None):
         sh = rng.randint(0, min(D, opts.get("sh_max", 4))) if rng.random() < 0.8 else 0
         if opts.get("sh_max") and D >= 3:
             sh = max(sh, rng.randint(2, min(D, opts["sh_max"])))
-        if opts.get("bounds", True) and rng.random() < 0.7:
+        if opts.get("bounds", True) and rng.random() < opts.get("bounds_p", 0.7):
             k = rng.randint(1, 3)
             bounds_list = [rng.randint(1, s) for _ in range(k)]
             if rng.random() < 0.3:
@@ -164,7 +164,7 @@ def make_case(rng, cid, scheme, tier, opts=None):
         D = opts.get("D") or rng.choice([1, 3, 7, 15, 31] if big else [1, 3, 7, 15])
         s = opts.get("s") or rng.choice([x for x in [1, 3, 7, 15, 31] if x <= D] + [rng.randint(1, D)])
         sh = 1
-        if opts.get("bounds", True) and rng.random() < 0.6:
+        if opts.get("bounds", True) and rng.random() < opts.get("bounds_p", 0.6):
             bounds_list = [rng.randint(1, s) for _ in range(rng.randint(1, 2))]
     elif scheme == "pst13":
         num_vars = rng.choice([1, 2, 2, 3, 3, 4] if big else [1, 2, 2, 3, 3])
@@ -427,6 +427,14 @@ def add_mutations(rng, c, profile):
             if profile in ("c11",):
                 if any(not c.meta["const"][i] for i in sel):
                     put(t, "sponge_pre", [rf_uniform(rng, p)], "reject" if _fs_binds(c, scheme, sel) else "reject?", "tiny_code")
+            if profile in ("c17", "c03", "c10") and scheme == "hyrax":
+                # a commitment of another size than the point asks for (a surplus row / a missing row) is refused
+                put(t, "comm_mut", [rng.choice(sel), rng.choice(["extra_row", "extra_row", "drop_row"])], "reject")
+            if profile in ("c17", "c03", "c10") and scheme in ("ligero_uni", "ligero_ml", "brakedown_ml"):
+                # commitment metadata that disagrees with the committed matrix: one more column is refused (the opened vector has
+                # another length); one more row only matters when the well-formedness challenges depend on it (decided by the model)
+                put(t, "comm_mut", [rng.choice(sel), "meta_cols"], "reject")
+                put(t, "comm_mut", [rng.choice(sel), "meta_rows"], "reject?", "meta_rows")
             if profile in ("c04",) and scheme in ("marlin", "sonic", "ipa"):
                 z = int(c.fields["pt.%d" % op["pt"]][0]) % p
                 bl_all = c.meta.get("bounds_sorted") or []
@@ -627,10 +635,23 @@ def make_domain_case(rng, cid, scheme, tier):
     return c
 
 
+_C19_COUNT = {}
+
+
 def make_c19_case(rng, cid, scheme, tier, rung):
     """one rung of the size ladder: univariate degree 2^rung (rung 1..8), 2..12 variables for the multivariate schemes"""
     p = FIELD[scheme]
     opts = {"n": rng.randint(1, 3), "npts": rng.randint(1, 2)}
+    # the option tags a size depends on (degree bound, hiding) are swept, not left to chance: every combination comes up
+    # within five scenarios of a scheme (the fifth is the free mix)
+    k = _C19_COUNT.get(scheme, 0)
+    _C19_COUNT[scheme] = k + 1
+    combo = [(1.0, 0.0), (0.0, 0.0), (1.0, 1.0), (0.0, 1.0), None][k % 5]
+    if combo is not None and scheme in HIDING:
+        opts["hiding_p"] = combo[1]
+        if scheme in HAS_BOUNDS:
+            opts["bound_p"] = combo[0]
+            opts["bounds_p"] = 1.0 if combo[0] else 0.0
     if scheme in UNIVARIATE:
         deg = 1 << rung
         opts["s"] = deg + rng.choice([0, 0, 1, 3])
@@ -675,6 +696,7 @@ def make_c19_case(rng, cid, scheme, tier, rung):
 def gen(rng, tier, profile, count, schemes=ALL):
     cases = []
     if profile == "c19":
+        _C19_COUNT.clear()
         k = 0
         while len(cases) < count:
             scheme = schemes[k % len(schemes)]
